@@ -310,6 +310,46 @@ func (v *FV) locWrite(env *ExprEnv, st *State, text string, _ string) (res []tou
 		}
 	}()
 	text = strings.TrimSpace(text)
+	if strings.HasPrefix(text, "any(") {
+		// any(T).f.g : field f.g of every object of type T (whole heap array)
+		depth, end := 0, -1
+		for i := 3; i < len(text); i++ {
+			if text[i] == '(' {
+				depth++
+			} else if text[i] == ')' {
+				depth--
+				if depth == 0 {
+					end = i
+					break
+				}
+			}
+		}
+		if end < 0 || end+2 > len(text) || text[end+1] != '.' {
+			return nil, fmt.Errorf("any(T).field expected")
+		}
+		ty := v.parseType(strings.TrimSpace(text[4:end]), env.pkg)
+		if ty == nil {
+			return nil, fmt.Errorf("any(): unknown type %s", text[4:end])
+		}
+		dummy := v.declare("anyobj", "Int")
+		saved, had := env.vars["any_obj__"]
+		env.vars["any_obj__"] = TV{T: dummy, Ty: ty, Sort: "Int"}
+		ts, err := v.locWrite(env, st, "any_obj__."+text[end+2:], "")
+		if had {
+			env.vars["any_obj__"] = saved
+		} else {
+			delete(env.vars, "any_obj__")
+		}
+		if err != nil {
+			return nil, err
+		}
+		for i := range ts {
+			fresh := v.declare("hvall_"+ts[i].arr, v.arrSort(ts[i].arr))
+			st.snap.over[ts[i].arr] = fresh
+			ts[i].all = true
+		}
+		return ts, nil
+	}
 	contents := false
 	if strings.HasSuffix(text, "[*]") {
 		contents = true
